@@ -5,6 +5,7 @@
    `bin/mkprops.py`, then kept as source).  What is proved and what is partial: DESIGN.md §4. -/
 import Peppi.Lemmas.ArrowFrame
 import Peppi.Lemmas.Transpose
+import Peppi.PremisesViews
 set_option linter.unusedVariables false
 namespace Peppi.Props.C14
 
@@ -27,5 +28,60 @@ theorem fromCols_toCols (n : Nat) (rows : SCols) (hok : RowsOK n rows) :
 theorem fromCols_allset (len : Nat) (cols : List (List Nat)) :
     fromCols len cols (some (List.replicate len true)) = fromCols len cols none :=
   _root_.Peppi.fromCols_allset len cols
+
+/- from `Peppi.PremisesViews` -/
+open Extracted in
+theorem views_End : structOK true true End.views = true :=
+  _root_.Peppi.views_End 
+
+/- from `Peppi.PremisesViews` -/
+open Extracted in
+theorem views_Item : structOK false true Item.views = true :=
+  _root_.Peppi.views_Item 
+
+/- from `Peppi.PremisesViews` -/
+open Extracted in
+theorem views_ItemMisc : structOK false false ItemMisc.views = true :=
+  _root_.Peppi.views_ItemMisc 
+
+/- from `Peppi.PremisesViews` -/
+open Extracted in
+theorem views_Position : structOK false true Position.views = true :=
+  _root_.Peppi.views_Position 
+
+/- from `Peppi.PremisesViews` -/
+open Extracted in
+theorem views_Post : structOK false true Post.views = true :=
+  _root_.Peppi.views_Post 
+
+/- from `Peppi.PremisesViews` -/
+open Extracted in
+theorem views_Pre : structOK false true Pre.views = true :=
+  _root_.Peppi.views_Pre 
+
+/- from `Peppi.PremisesViews` -/
+open Extracted in
+theorem views_Start : structOK false true Start.views = true :=
+  _root_.Peppi.views_Start 
+
+/- from `Peppi.PremisesViews` -/
+open Extracted in
+theorem views_StateFlags : structOK false false StateFlags.views = true :=
+  _root_.Peppi.views_StateFlags 
+
+/- from `Peppi.PremisesViews` -/
+open Extracted in
+theorem views_TriggersPhysical : structOK false true TriggersPhysical.views = true :=
+  _root_.Peppi.views_TriggersPhysical 
+
+/- from `Peppi.PremisesViews` -/
+open Extracted in
+theorem views_Velocities : structOK false true Velocities.views = true :=
+  _root_.Peppi.views_Velocities 
+
+/- from `Peppi.PremisesViews` -/
+open Extracted in
+theorem views_Velocity : structOK false true Velocity.views = true :=
+  _root_.Peppi.views_Velocity 
 
 end Peppi.Props.C14
